@@ -25,7 +25,8 @@ HARNESSES = {
     "c01": [("w_c12", ["check_add_value_linear", "check_update_dict_linear", "check_update_list_linear", "check_ngram_linear"])],
     "c05": [("w_c12", ["check_add_value_linear", "check_add_value_log16", "check_add_value_log8"])],
     "c17": [("w_c17", None)],
-    "c06": [("w_c06", None)],
+    "c02": [("w_c17", ["check_query_current"]), ("w_c12", ["check_update_list_hll", "check_add_value_hll", "check_update_dict_hll", "check_ngram_hll"])],
+    "c06": [("w_c12", ["check_add_value_log16", "check_add_value_log8", "check_ngram_log16", "check_ngram_log8", "check_log_ctor"])],
 }
 
 
